@@ -111,6 +111,16 @@ def check(ctx):
     ident = toplevel_qualname(srt0)
     run.rule('STB', 'STABILITY/NO-LOSS: every row is stored under key = sort key + fixed-width rendering of its enumerate index (distinct '
                     'keys, so equal sort keys neither overwrite each other nor lose input order) and every stored value is yielded once')
+    # an index carried from chunk to chunk by `for n, row in enumerate(chunk, start=n)`: the next chunk starts at the LAST index the
+    # previous one issued, so the two rows at every seam get the same number (equal sort keys then collide in the store)
+    for lp_ in ast.walk(proc.node):
+        if isinstance(lp_, ast.For) and isinstance(lp_.iter, ast.Call) and u(lp_.iter.func) == 'enumerate' and isinstance(lp_.target, ast.Tuple) \
+                and lp_.target.elts and isinstance(lp_.target.elts[0], ast.Name):
+            st_ = [k.value for k in lp_.iter.keywords if k.arg == 'start'] + list(lp_.iter.args[1:2])
+            if st_ and isinstance(st_[0], ast.Name) and st_[0].id == lp_.target.elts[0].id:
+                run.fail('STB', where(repo, lp_), ident, 'row numbers continued with enumerate(chunk, start=<the index itself>)',
+                         'the row number of a chunk starts at the last number of the previous chunk: the rows on both sides of a chunk '
+                         'boundary share a number, and if their sort keys are equal the second overwrites the first in the store')
     loops = [n for n in own_nodes(proc.node) if isinstance(n, ast.For)]
     ok = len(loops) == 1 and isinstance(loops[0].iter, ast.Call) and u(loops[0].iter.func) == 'enumerate' and \
         pseudo(loops[0].iter.args[0]) == proc.params[0] and len(loops[0].iter.args) == 1 and not loops[0].iter.keywords and \
